@@ -4,6 +4,8 @@ from __future__ import annotations
 import itertools
 from dataclasses import dataclass, field
 
+import os
+
 import z3
 
 from . import sorts
@@ -221,7 +223,8 @@ class Ctx:
         # of feasibility (sound: at worst an infeasible path is explored and its
         # obligations hold vacuously)
         s = z3.Solver()
-        s.set("timeout", self.FEAS_TIMEOUT_MS)
+        s.set("rlimit", int(os.environ.get("PYVC_FEAS_RLIMIT", "200000")))  # deterministic (load-independent) budget; wall clock only as a safety net
+        s.set("timeout", self.FEAS_TIMEOUT_MS * 8)
         for a in self.pc:
             if not _has_quant(a):
                 s.add(a)
